@@ -27,8 +27,14 @@ RULE = ("in-memory charts over the five layouts: 1-8 (rarely up to 1294) 4/4 tem
         "read back from disk), the same object written twice, or write -> in-place edit through the list property setters "
         "(hits.offset, hits.column, bpms.bpm, holds.length, holds.offset, map.bpms) -> write again; every write is judged "
         "against the chart as it is at that moment and the chart is snapshotted (rows, labels, columns, header, tables) around "
-        "every write: a writer must not modify it; non-trivial = at least 2 tempo points with an object after "
-        "the second, or an off-grid object, or a hold")
+        "every write: a writer must not modify it; the layout handed to write is one of the five module tables, or a dict "
+        "built on the spot for every write (a copy of a table; a table with an extra lane, without one lane, with two lanes "
+        "swapped, in another key order) right after another chart was written with a temporary dict of another table, or ONE "
+        "caller-owned dict used for all writes of the script and edited in place between two writes (lane added / removed / two "
+        "lanes swapped): model and by-the-book denotation are given the layout as it is at that write, and the writer must not "
+        "modify the dict; long charts: a first tempo segment of 985-1000 measures at a high tempo with objects and tempo points "
+        "in measures 988-999 (and, outside the domain: D36, in measures >= 1000); non-trivial = at least 2 tempo points with an "
+        "object after the second, or an off-grid object, or a hold")
 ASSUMPTIONS = [
     "pandas row LABELS are outside the model (the writer model sees rows by position); they are exercised by the harness: "
     "lists are built through histories that permute, drop and duplicate labels, and the written bytes are judged by the "
@@ -41,6 +47,18 @@ ASSUMPTIONS = [
 TRUSTED_EXTRA = ["the denotation of the written bytes uses the lexer shared with the reader model (Spec/BMS.lean)"]
 
 LAYOUT_COLS = {"BMS": 14, "BME": 16, "PMS": 9, "PMS_BME": 18, "PMS_5B": 5}
+# lanes of the five tables in dict order (channel text, column) — generator-side bookkeeping only; the adapter reads the
+# real dicts
+LAYOUT_LANES = {
+    "BMS": [("11", 0), ("21", 7), ("12", 1), ("22", 8), ("13", 2), ("23", 9), ("14", 3), ("24", 10), ("15", 4), ("25", 11),
+            ("16", 5), ("26", 12), ("17", 6), ("27", 13)],
+    "BME": [("16", 0), ("21", 8), ("11", 1), ("22", 9), ("12", 2), ("23", 10), ("13", 3), ("24", 11), ("14", 4), ("25", 12),
+            ("15", 5), ("28", 13), ("18", 6), ("29", 14), ("19", 7), ("26", 15)],
+    "PMS": [("11", 0), ("12", 1), ("13", 2), ("14", 3), ("15", 4), ("22", 5), ("23", 6), ("24", 7), ("25", 8)],
+    "PMS_BME": [("11", 0), ("21", 9), ("12", 1), ("22", 10), ("13", 2), ("23", 11), ("14", 3), ("24", 12), ("15", 4),
+                ("25", 13), ("18", 5), ("28", 14), ("19", 6), ("29", 15), ("16", 7), ("26", 16), ("17", 8), ("27", 17)],
+    "PMS_5B": [("13", 0), ("14", 1), ("15", 2), ("22", 3), ("23", 4)],
+}
 E_BPMS = [50, 60, 75, 100, 120, 125, 128, 150, 160, 200, 240, 250, 300, 375, 37.5, 62.5, 93.75, 187.5]
 B36 = "0123456789ABCDEFGHIJKLMNOPQRSTUVWXYZ"
 DENS = [1, 2, 3, 4, 6, 8, 12, 16, 24, 32, 48, 96, 5, 7, 9, 64]
@@ -84,19 +102,92 @@ def gen_bpm(rng):
     return 100 / 3
 
 
+EXT_CHANNELS = ["17", "27", "18", "28", "19", "29", "1A", "2A", "31"]
+
+
+def gen_layout_edit(rng, layout, used_cols, lanes_now):
+    """an edit of a layout dict: ["extend", channel hex, column] | ["reduce", lane index] | ["swap", i, j] | ["reorder"]
+    (`lanes_now`: [(channel text, column)] in dict order)"""
+    n = len(lanes_now)
+    r = rng.random()
+    if r < 0.5 and n >= 2:
+        used = [k for k, (_, c) in enumerate(lanes_now) if c in used_cols]
+        i = rng.choice(used) if used and rng.random() < 0.8 else rng.randrange(n)
+        j = rng.choice([k for k in range(n) if k != i])
+        return ["swap", i, j]
+    if r < 0.8:
+        free_cols = [c for c in range(18) if c not in [c_ for _, c_ in lanes_now]]
+        free_ch = [ch for ch in EXT_CHANNELS if ch not in [c_ for c_, _ in lanes_now]]
+        if free_cols and free_ch:
+            return ["extend", hx(rng.choice(free_ch)), rng.choice(free_cols)]
+    if r < 0.93 and n >= 2:
+        used = [k for k, (_, c) in enumerate(lanes_now) if c in used_cols]
+        return ["reduce", rng.choice(used) if used and rng.random() < 0.5 else rng.randrange(n)]
+    return ["reorder"]
+
+
+def edit_lanes(lanes, e):
+    """the effect of a layout edit on [(channel text, column)] (generator-side bookkeeping; the adapter edits the dict)"""
+    lanes = list(lanes)
+    n = len(lanes)
+    if e[0] == "extend":
+        lanes.append((bytes.fromhex(e[1]).decode("latin-1"), e[2]))
+    elif e[0] == "reduce" and n:
+        del lanes[e[1] % n]
+    elif e[0] == "swap" and n:
+        i, j = e[1] % n, e[2] % n
+        (a, ca), (b, cb) = lanes[i], lanes[j]
+        lanes[i], lanes[j] = (a, cb), (b, ca)
+    elif e[0] == "reorder":
+        lanes.reverse()
+    return lanes
+
+
+LONG_BPMS = [240.0, 480.0, 960.0, 1920.0, 300.0, 375.0, 600.0]
+
+
 def gen(rng, tier, i):
     layout = rng.choice(list(LAYOUT_COLS))
     ncol = LAYOUT_COLS[layout]
     n_b = rng.choice([1, 1, 2, 2, 3, 4, 6, 8])
     if rng.random() < (0.004 if tier == "quick" else 0.01):
         n_b = rng.choice([40, 200]) if tier == "quick" else rng.choice([40, 200, 900, 1294, 1295])
-    t = Fr(0) if rng.random() < 0.94 else Fr(rng.choice([500, 1234.5, -250, 3]))
+    long_mode = rng.random() < 0.07
+    t = Fr(0) if (rng.random() < 0.94 or long_mode) else Fr(rng.choice([500, 1234.5, -250, 3]))
     segs = []          # (start exact, bpm double, measures)
-    for k in range(n_b):
-        bpm = gen_bpm(rng)
-        nm = rng.choice([1, 1, 2, 3, 4]) if n_b < 30 else 1
-        segs.append((t, bpm, nm))
-        t = t + nm * 4 * Fr(60000) / Fr(bpm)
+    if long_mode:
+        # a long first segment at a high tempo: the last tempo point sits on bar line `target` (mostly 999 — the last
+        # measure `#mmmcc:` can address), the objects are drawn from the last dozen measures
+        n_b = rng.choice([1, 2, 2, 3, 4])
+        target = rng.choice([999] * 6 + [998, 998, 997, 990, 1000, 1001])
+        mids = [rng.choice([1, 1, 2, 3]) for _ in range(max(0, n_b - 2))]
+        first = target - sum(mids) + (1 if n_b == 1 else 0)
+        nms = [first] + mids + ([1] if n_b > 1 else [])
+        for k in range(n_b):
+            bpm = rng.choice(LONG_BPMS) if k == 0 or rng.random() < 0.7 else gen_bpm(rng)
+            segs.append((t, bpm, nms[k]))
+            t = t + nms[k] * 4 * Fr(60000) / Fr(bpm)
+    else:
+        for k in range(n_b):
+            bpm = gen_bpm(rng)
+            nm = rng.choice([1, 1, 2, 3, 4]) if n_b < 30 else 1
+            segs.append((t, bpm, nm))
+            t = t + nm * 4 * Fr(60000) / Fr(bpm)
+    # the layout handed to write
+    base_lanes = LAYOUT_LANES[layout]
+    r = rng.random()
+    if r < 0.5:
+        lay = dict(mode="const")
+        lanes_now = list(base_lanes)
+    else:
+        mode = "fresh" if r < 0.82 else "owned"
+        lanes_now = list(base_lanes)
+        variant = ["copy"]
+        if rng.random() < (0.5 if mode == "fresh" else 0.3):
+            variant = gen_layout_edit(rng, layout, set(range(ncol)), lanes_now)
+            lanes_now = edit_lanes(lanes_now, variant)
+        lay = dict(mode=mode, variant=variant)
+    cols_pool = [c for _, c in lanes_now] or [0]
     bpms = [[R(float(s)), R(b)] for s, b, _ in segs]
     lnobj = "ZZ" if rng.random() < 0.6 else rid(rng, avoid=("01",))
     samples = {}
@@ -109,13 +200,14 @@ def gen(rng, tier, i):
         s, b, nm = segs[j]
         bl = Fr(60000) / Fr(b)
         extra = rng.choice([0, 0, 1, 3]) if j == len(segs) - 1 else 0
+        lo = max(0, nm + extra - 12) if (nm > 20 and rng.random() < 0.9) else 0      # long segment: its last measures
         r = rng.random()
         if r < 0.7:
             d = rng.choice(DENS)
-            return float(s + bl * Fr(rng.randrange(0, 4 * (nm + extra) * d), d)), True
+            return float(s + bl * Fr(rng.randrange(4 * lo * d, 4 * (nm + extra) * d), d)), True
         if r < 0.8:
-            return float(s + bl * 4 * rng.randrange(0, nm + extra + 1)), True
-        return float(s) + rng.uniform(0, float(bl) * 4 * (nm + extra)), False
+            return float(s + bl * 4 * rng.randrange(lo, nm + extra + 1)), True
+        return float(s) + rng.uniform(float(bl) * 4 * lo, float(bl) * 4 * (nm + extra)), False
 
     def gen_sample():
         r = rng.random()
@@ -140,14 +232,14 @@ def gen(rng, tier, i):
             tt, t2 = t2, tt
         if t2 - tt < 1:
             continue
-        c = rng.randrange(ncol)
+        c = rng.choice(cols_pool)
         if not free(c, tt, t2):
             continue
         busy.setdefault(c, []).append((tt, t2))
         holds.append([c, hx(gen_sample()), R(tt), R(t2 - tt)])
     for _ in range(rng.choice([0, 1, 2, 4, 6, 10, 14])):
         tt, _g = gen_time()
-        c = rng.randrange(ncol)
+        c = rng.choice(cols_pool)
         if not free(c, tt, tt):
             continue
         busy.setdefault(c, []).append((tt, tt))
@@ -157,7 +249,7 @@ def gen(rng, tier, i):
         j = rng.randrange(len(segs))
         sg, bg, nmg = segs[j]
         blg = Fr(60000) / Fr(bg)
-        c = rng.randrange(ncol)
+        c = rng.choice(cols_pool)
         d1, d2 = rng.choice([(7, 9), (9, 7), (5, 7), (9, 32), (64, 7), (7, 64), (96, 5), (3, 7)])
         mline = sg + blg * 4 * rng.randrange(0, nmg)
         t_hit = float(mline + blg * Fr(rng.randrange(1, d1), d1))
@@ -204,7 +296,17 @@ def gen(rng, tier, i):
                            dict(edit="bpm_scale", f=rng.choice([2, 0.5])), dict(edit="holds_len", f=rng.choice([0.5, 2])),
                            dict(edit="bpms_reverse"), dict(edit="holds_shift", ms=beat0 * rng.choice([1, 4]))])
         ops = [rng.choice(["write", "write_file"]), edit, rng.choice(["write", "write_file"])]
-    return dict(claim="write", layout=layout, ops=ops, hist=hist, title=hx(rng.choice(["song", "a b  c", "x:y #1"])), artist=hx(rng.choice(["me", "A feat. B"])),
+    if lay["mode"] == "owned" and rng.random() < 0.75:
+        # the caller edits its own layout dict between two writes of the script
+        used = {h[0] for h in hits} | {h[0] for h in holds}
+        le = dict(layout_edit=gen_layout_edit(rng, layout, used, lanes_now))
+        writes = [o for o in ops if isinstance(o, str)]
+        if len(writes) >= 2:
+            k = max(j for j, o in enumerate(ops) if isinstance(o, str))
+            ops = ops[:k] + [le] + ops[k:]
+        else:
+            ops = ops + [le, rng.choice(["write", "write_file"])]
+    return dict(claim="write", layout=layout, lay=lay, ops=ops, hist=hist, title=hx(rng.choice(["song", "a b  c", "x:y #1"])), artist=hx(rng.choice(["me", "A feat. B"])),
                 version=hx(rng.choice(["3", "12", ""])), ln_end=hx(lnobj), samples=[[hx(k), hx(v)] for k, v in samples.items()],
                 misc=misc, bpms=bpms, hits=hits, holds=holds, no_sample_default=hx("01"))
 
@@ -237,6 +339,28 @@ def corpus():
     for lay, n in LAYOUT_COLS.items():
         c.append(dict(base, layout=lay, bpms=[[R(0), R(150)], [R(1600), R(75)]],
                       hits=[[k, hx(""), R(400.0 * k)] for k in range(n)], holds=[[n - 1, hx("k.wav"), R(100), R(3100)]]))
+    # caller-built layout dicts: a copy built on the spot (after a write with a temporary dict of another table), a table
+    # with an extra lane, and ONE caller-owned dict edited between two writes (lanes swapped / a lane removed)
+    five = dict(bpms=[[R(0), R(150)], [R(1600), R(75)]], hits=[[k, hx(""), R(400.0 * k)] for k in range(5)],
+                holds=[[4, hx("k.wav"), R(100), R(3100)]])
+    for lay in LAYOUT_COLS:
+        c.append(dict({**base, **five}, layout=lay, lay=dict(mode="fresh", variant=["copy"]), ops=["write", "write_file"]))
+    c.append(dict({**base, **five}, layout="BME", lay=dict(mode="fresh", variant=["extend", hx("17"), 16]),
+                  hits=five["hits"] + [[16, hx("k.wav"), R(900.0)]]))
+    c.append(dict({**base, **five}, layout="PMS", lay=dict(mode="owned", variant=["copy"]),
+                  ops=["write", dict(layout_edit=["swap", 3, 4]), "write"]))
+    c.append(dict({**base, **five}, layout="BMS", lay=dict(mode="owned", variant=["copy"]),
+                  ops=["write", dict(layout_edit=["reduce", 12]), "write_file", dict(layout_edit=["extend", hx("19"), 3]), "write"]))
+    c.append(dict({**base, **five}, layout="PMS_5B", lay=dict(mode="owned", variant=["swap", 0, 4]),
+                  ops=["write", dict(layout_edit=["extend", hx("2A"), 9]), dict(edit="hits_cols", k=0), "write"]))
+    # the last addressable measure: objects and a tempo point in measure 999 (240 bpm: 1000 ms per measure)
+    c.append(dict(base, bpms=[[R(0), R(240)]], hits=[[1, hx(""), R(998000.0)], [2, hx("k.wav"), R(999000.0)], [3, hx(""), R(999750.0)],
+                                                     [1, hx(""), R(999000.0 + 1000.0 / 3)], [5, hx(""), R(999123.4)]],
+                  holds=[[4, hx(""), R(998500.0), R(750.0)], [6, hx("k.wav"), R(999250.0), R(500.0)]]))
+    c.append(dict(base, bpms=[[R(0), R(240)], [R(999000.0), R(120)]], hits=[[2, hx("k.wav"), R(999000.0)], [3, hx(""), R(1000500.0)]],
+                  holds=[[4, hx(""), R(998500.0), R(1000.0)]]))
+    c.append(dict(base, layout="PMS", bpms=[[R(999 * 250.0), R(480)], [R(0), R(960)]], hits=[[0, hx(""), R(999 * 250.0 + 125.0)], [8, hx(""), R(998 * 250.0)]],
+                  holds=[]))
     return c
 
 
@@ -246,6 +370,24 @@ def valid(case):
             return False
         if not case["bpms"]:
             return False
+        lay = case.get("lay") or dict(mode="const")
+        if lay.get("mode") not in ("const", "fresh", "owned"):
+            return False
+        edits = [lay.get("variant") or ["copy"]] + [o["layout_edit"] for o in (case.get("ops") or []) if isinstance(o, dict) and "layout_edit" in o]
+        for e in edits:
+            if not isinstance(e, list) or not e or e[0] not in ("copy", "extend", "reduce", "swap", "reorder"):
+                return False
+            if e[0] == "extend":
+                ch = bytes.fromhex(e[1])
+                if len(ch) != 2 or not all(chr(x) in B36 for x in ch) or ch in (b"00", b"01", b"02", b"03", b"08", b"09") or not (isinstance(e[2], int) and 0 <= e[2] < 18):
+                    return False
+            if e[0] == "reduce" and not isinstance(e[1], int):
+                return False
+            if e[0] == "swap" and not (isinstance(e[1], int) and isinstance(e[2], int)):
+                return False
+        for o in (case.get("ops") or []):
+            if not (o in ("write", "write_file") or isinstance(o, dict)):
+                return False
         for o, b in case["bpms"]:
             if F(b) <= 0:
                 return False
@@ -398,11 +540,39 @@ def snapshot(m):
                 misc=[[bytes(k).hex(), bytes(v).hex()] for k, v in m.misc.items()])
 
 
-def do_write(m, case, via):
+def apply_layout_edit(cfg, e):
+    """edit a caller-owned layout dict IN PLACE"""
+    lanes = [k for k, v in cfg.items() if isinstance(v, int)]
+    n = len(lanes)
+    if e[0] == "extend":
+        cfg[bytes.fromhex(e[1])] = int(e[2])
+    elif e[0] == "reduce" and n:
+        del cfg[lanes[e[1] % n]]
+    elif e[0] == "swap" and n:
+        a, b = lanes[e[1] % n], lanes[e[2] % n]
+        cfg[a], cfg[b] = cfg[b], cfg[a]
+    elif e[0] == "reorder":
+        items = list(cfg.items())
+        head = [(k, v) for k, v in items if not isinstance(v, int)]
+        rest = [(k, v) for k, v in items if isinstance(v, int)]
+        cfg.clear()
+        cfg.update(head + rest[::-1])
+    return cfg
+
+
+def laydef(cfg):
+    """the layout dict as it is now, for the model and the by-the-book denotation"""
+    rev = {v: k for k, v in cfg.items()}
+    return dict(time_sig=bytes(rev["TIME_SIG"]).hex(), bpm=bytes(rev["BPM_CHANGE"]).hex(), exbpm=bytes(rev["EXBPM_CHANGE"]).hex(),
+                lanes=[[bytes(k).hex(), int(v)] for k, v in cfg.items() if isinstance(v, int)])
+
+
+def do_write(m, case, via, cfg=None):
     import os
     import tempfile
     BMSMap, BMSChannel, *_ = _imports()
-    cfg = getattr(BMSChannel, case["layout"])
+    if cfg is None:
+        cfg = getattr(BMSChannel, case["layout"])
     dflt = bytes.fromhex(case["no_sample_default"])
     if via == "write_file":
         fd, path = tempfile.mkstemp(prefix="c05-", suffix=".bms")
@@ -454,27 +624,61 @@ def run(case, drv):
             except Exception:
                 pass
             m = build_map(case)
+            BMSChannel = _imports()[1]
+            lay = case.get("lay") or dict(mode="const")
+            table = getattr(BMSChannel, case["layout"])
+            owned = None
+            pm = build_map(POISON_CHART) if lay["mode"] == "fresh" else None
             for step, op in enumerate(ops):
                 if isinstance(op, dict):
+                    if "layout_edit" in op:
+                        if owned is not None:
+                            apply_layout_edit(owned, op["layout_edit"])       # the caller edits its own dict
+                        continue
                     apply_edit(m, op, LAYOUT_COLS[case["layout"]])
                     continue
+                # the layout dict handed to this write
+                if lay["mode"] == "const":
+                    cfg = table
+                elif lay["mode"] == "owned":
+                    if owned is None:
+                        owned = apply_layout_edit(dict(table), lay.get("variant") or ["copy"])
+                    cfg = owned
+                else:
+                    # built on the spot, right after another chart was written with a temporary dict of ANOTHER table
+                    other = [n for n in LAYOUT_COLS if n != case["layout"]][(step + len(case["hits"])) % 4]
+                    tmp = dict(getattr(BMSChannel, other))
+                    try:
+                        do_write(pm, POISON_CHART, "write", tmp)
+                    except Exception:
+                        pass
+                    del tmp
+                    cfg = dict(table)
+                    apply_layout_edit(cfg, lay.get("variant") or ["copy"])
+                ld = None if lay["mode"] == "const" else laydef(cfg)
+                cfg_before = list(cfg.items())
                 before = snapshot(m)
                 dflt_labels = labels_default(m)
                 try:
-                    b = do_write(m, case, op)
+                    b = do_write(m, case, op, cfg)
                     impl4 = ("ok", b.split(b"\r\n"), before["rows"], dflt_labels)
                 except Exception as e:
                     impl4 = ("err", err_class(e), before["rows"], dflt_labels)
                 after = snapshot(m)
+                cfg_after = list(cfg.items())
                 logging.disable(logging.NOTSET)
-                r = judge(case, drv, impl4)
+                r = judge(case, drv, impl4, ld)
                 logging.disable(logging.CRITICAL)
-                r["tags"] = list(r.get("tags", [])) + [f"op:{op}"] + ([f"step{step}"] if step else [])
-                if before != after:
+                r["tags"] = list(r.get("tags", [])) + [f"op:{op}", f"lay:{lay['mode']}"] + ([f"step{step}"] if step else [])
+                if ld is not None:
+                    r["tags"].append("layout:" + (lay.get("variant") or ["copy"])[0])
+                    if any(isinstance(o, dict) and "layout_edit" in o for o in ops[:step]) and owned is not None:
+                        r["tags"].append("layout-edited-between-writes")
+                if before != after or cfg_before != cfg_after:
                     r["ok"] = False
                     r["kf"] = None
                     r.setdefault("detail", {})["chart_modified"] = dict(
-                        step=step, changed=[k for k in before if before[k] != after[k]])
+                        step=step, changed=[k for k in before if before[k] != after[k]] + (["layout dict"] if cfg_before != cfg_after else []))
                     r["tags"].append("chart-modified-by-writer")
                 results.append(r)
                 if r["ok"] is not True or not r["agree"]:
@@ -555,15 +759,17 @@ def group(rows, key_n):
     return {k: sorted(v) for k, v in g.items()}
 
 
-def judge(case, drv, impl4):
-    """one write, judged against the chart as it was when the writer was called (`impl4[2]`: its rows in row order)"""
+def judge(case, drv, impl4, ld=None):
+    """one write, judged against the chart as it was when the writer was called (`impl4[2]`: its rows in row order) and
+    the layout as it was at that call (`ld`: a caller-built dict, `None` = the module table `case["layout"]`)"""
     layout = case["layout"]
+    cols = set(range(LAYOUT_COLS[layout])) if ld is None else {c for _, c in ld["lanes"]}
     impl = impl4[:2]
     # the chart as built (rows in ROW ORDER after the history): what the writer was given
     r_bpms, r_hits, r_holds = impl4[2]
     chart = dict(bpms=[[o, b] for b, _mt, o in r_bpms], hits=[[c, s_, o] for c, s_, o in r_hits],
                  holds=[[c, s_, o, R(F(t) - F(o))] for c, s_, o, t in r_holds])
-    m = drv.call("c05.write", layout=layout, no_sample_default=case["no_sample_default"], chart=model_chart(case, impl4[2]))
+    m = drv.call("c05.write", layout=layout, layout_def=ld, no_sample_default=case["no_sample_default"], chart=model_chart(case, impl4[2]))
     facts = m["facts"]
     tags = [layout, f"bpms{min(len(chart['bpms']), 4)}"]
     if not impl4[3]:
@@ -608,7 +814,8 @@ def judge(case, drv, impl4):
     on_lines = all(abs((o2 - o1) / (240000 / b1) - round((o2 - o1) / (240000 / b1))) <= Fr(1, 10 ** 9) and round((o2 - o1) / (240000 / b1)) >= 1
                    for (o1, b1), (o2, _) in zip(sb[:-1], sb[1:]))
     quantified = on_lines and not facts["collision"] and all(f is not None for f in all_facts) \
-        and all(0 <= c < LAYOUT_COLS[layout] for c, *_ in chart["hits"] + chart["holds"]) and len(chart["bpms"]) < 1295
+        and all(c in cols for c, *_ in chart["hits"] + chart["holds"]) and len(chart["bpms"]) < 1295 \
+        and (ld is None or len({c for _, c in ld["lanes"]}) == len(ld["lanes"]))
     kf = None
     if not quantified:
         tags.append("outside-quantifier")
@@ -624,7 +831,7 @@ def judge(case, drv, impl4):
             tags.append("split-lines")          # several lines for one (measure, channel)
         valid_flags = drv.call("c05.lines_valid", lines=[l.hex() for l in lines])["ok"]
         s_valid = all(valid_flags)
-        den = drv.call("c04.denote", layout=layout, lines=[l.hex() for l in lines])["ok"]["den"]
+        den = drv.call("c04.denote", layout=layout, layout_def=ld, lines=[l.hex() for l in lines])["ok"]["den"]
         s_hits = s_holds = s_tempo = False
         why = []
         if den is None:
@@ -674,6 +881,8 @@ def judge(case, drv, impl4):
                 kf = "D36"
             elif d33:
                 kf = "D37"
+    if facts["max_measure"] >= 988:
+        tags.append("measure-999" if facts["max_measure"] == 999 else ("measures>=1000" if facts["max_measure"] >= 1000 else "measures-988-998"))
     for flag, name in ((d31, "d31-pred"), (d06, "d06-pred"), (d32, "d32-pred"), (d33, "d33-pred"), (off_grid, "off-grid"), (bool(chart["holds"]), "holds")):
         if flag:
             tags.append(name)
